@@ -2,4 +2,5 @@ SPECIFICATION Spec
 INVARIANT TypeOK
 PROPERTY FitPreservesEffective
 PROPERTY Independence
+PROPERTY HeldFrozen
 CONSTRAINT Emit
